@@ -218,7 +218,7 @@ def _mk_unit(n0, niter, storage, sym, tiers, prop="C10", klist_part=10):
             KP.max = property(max_prop)
             try:
                 out = f(system, Grid(), cdict, adpt_num_iter=niter, use_irred_kpt=sym, symmetrize=False, parallel=False,
-                        allow_restart=allow, dump_results=dump, adpt_mesh=2, adpt_fac=1, file_Klist_path="/klist", Klist_part=klist_part,
+                        allow_restart=(allow and not dump), dump_results=dump,        # dump_results alone implies the restart files adpt_mesh=2, adpt_fac=1, file_Klist_path="/klist", Klist_part=klist_part,
                         data_k_class=lambda system, dK=None, grid=None, Kpoint=None, **kw: Kpoint)
             finally:
                 KP.max = realKP_max
@@ -258,6 +258,7 @@ _mk_unit(3, 2, "memory", False, ("quick", "thorough"))
 _mk_unit(2, 3, "restart", True, ("thorough",))
 _mk_unit(3, 3, "memory", True, ("thorough",))
 _mk_unit(2, 0, "memory", True, ("quick", "thorough"))
+_mk_unit(2, 0, "dump", True, ("quick", "thorough"))
 _mk_unit(4, 2, "memory", True, ("quick", "thorough"))
 
 
